@@ -630,19 +630,30 @@ class ClientTls(Client):
         """
         try:
             self.cs.do_handshake()
-        except OSError as ex:
+        except ssl.SSLError as ex:
             if ex.errno in (ssl.SSL_ERROR_WANT_READ, ssl.SSL_ERROR_WANT_WRITE):
                 return False
-            elif ex.errno in (ssl.SSL_ERROR_EOF, ):
+            elif ex.errno in (ssl.SSL_ERROR_EOF, ):  # far side terminated
                 self.close()
-                raise   # should give up here nicely
+                self.cutoff = True  # give up here nicely, caller may reconnect
+                return False
             else:
                 self.close()
                 raise
         except OSError as ex:
             self.close()
-            if ex.errno in (errno.ECONNABORTED, ):
-                raise  # should give up here nicely
+            if ex.errno in (errno.ECONNABORTED,
+                            errno.ECONNRESET,
+                            errno.EPIPE,
+                            errno.ENETRESET,
+                            errno.ENETUNREACH,
+                            errno.EHOSTUNREACH,
+                            errno.ENETDOWN,
+                            errno.EHOSTDOWN,
+                            errno.ETIMEDOUT,
+                            errno.ECONNREFUSED):  # far side or network gave up
+                self.cutoff = True  # give up here nicely, caller may reconnect
+                return False
             raise
         except Exception as ex:
             self.close()
